@@ -53,6 +53,41 @@ type Result struct {
 	files []*fit.File
 	hdr   fit.Header
 	fid   fit.FileIdMsg
+	kept  [][]byte // byte slices returned by the library, kept to see whether they change later
+	keptS []string // their content at the time of return
+}
+
+// recheckReturned looks again, after later calls were made, at everything the
+// library handed out earlier: Files (content lines, header/CRC excluded because
+// Encode legitimately updates them) and byte slices. A value that changed after
+// it was returned is reported inside the result's dump, so every oracle that
+// compares dumps sees it.
+func recheckReturned(results []*Result) {
+	for _, r := range results {
+		if r == nil {
+			continue
+		}
+		for i, b := range r.kept {
+			if string(b) != r.keptS[i] {
+				r.Dump = append(r.Dump, "MUTATED-AFTER-RETURN: returned bytes #"+strconv.Itoa(i)+" changed from "+clip(r.keptS[i])+" to "+clip(string(b)))
+			}
+		}
+		if r.Call == "Encode" {
+			continue // the File of an Encode task is an input, already covered by its Decode result
+		}
+		if r.file != nil && len(r.Dump) > 0 && r.Call == "Decode" {
+			if d := firstDiff(contentLines(dumpFile(r.file)), contentLines(r.Dump)); d != "" {
+				r.Dump = append(r.Dump, "MUTATED-AFTER-RETURN: "+d)
+			}
+		}
+		for i, f := range r.files {
+			if i < len(r.Dumps) {
+				if d := firstDiff(contentLines(dumpFile(f)), contentLines(r.Dumps[i])); d != "" {
+					r.Dumps[i] = append(r.Dumps[i], "MUTATED-AFTER-RETURN: "+d)
+				}
+			}
+		}
+	}
 }
 
 func classifyErr(err error) string {
@@ -209,6 +244,8 @@ func runTask(t *Task, media map[string][]byte, sched Yielder, prior map[int]*Res
 			b, err := h.MarshalJSON()
 			setErr(err)
 			res.Dump = append(res.Dump, "json="+string(b))
+			res.kept = append(res.kept, b)
+			res.keptS = append(res.keptS, string(b))
 		}
 	case "Encode":
 		var f *fit.File
@@ -235,13 +272,21 @@ func runTask(t *Task, media map[string][]byte, sched Yielder, prior map[int]*Res
 			n = 1
 		}
 		for i := 0; i < n; i++ {
+			if i > 0 && strings.HasPrefix(t.Between, "proto:") {
+				v, _ := strconv.Atoi(t.Between[len("proto:"):])
+				f.Header.ProtocolVersion = byte(v)
+			}
 			w := &SimWriter{sched: sched, task: t.ID, failAt: t.WriteFail}
 			err := fit.Encode(w, f, archOf(t.Arch))
 			setErr(err)
 			res.Outs = append(res.Outs, w.buf)
 			res.Repeats = i + 1
-			if i > 0 && res.RepeatDiff == 0 && string(w.buf) != string(res.Outs[0]) {
+			if i > 0 && res.RepeatDiff == 0 && string(w.buf) != string(res.Outs[0]) && t.Between == "" {
 				res.RepeatDiff = i
+			}
+			if i > 0 && t.Between != "" {
+				res.Out = w.buf // the output after the header change is the one the oracle looks at
+				res.WriteSz = w.sizes
 			}
 			if i == 0 {
 				res.Out = w.buf
@@ -299,5 +344,6 @@ func runScenarioSeq(sc *Scenario) []*Result {
 		prior[t.ID] = r
 		out = append(out, r)
 	}
+	recheckReturned(out)
 	return out
 }
